@@ -7,6 +7,12 @@ QUICK = dict(gen=800)
 THOROUGH = dict(gen=20000)
 TRUSTED = ['harness channels/server set standing for the next sinks (harness/mocks.py)',
            'random.randint drawn by __Put is recorded from the run and passed to the model']
+SOURCE_IMPORTS = ['ScalesModel.Model.Heap']
+SOURCE_CONSTANTS = {
+    'Scales.Heap.Idle': ('from scales.loadbalancer.heap import HeapBalancerSink as H', 'H.Idle'),
+    'Scales.Heap.Penalty': ('from scales.loadbalancer.heap import HeapBalancerSink as H', 'H.Penalty'),
+    'Scales.Heap.chOpen': ('from scales.constants import ChannelState', 'ChannelState.Open'),
+}
 ASSUMPTIONS = ['channel states change only between balancer calls (gevent is cooperative)',
                'fewer than 2^31-1 requests outstanding per member']
 
